@@ -6,6 +6,7 @@
   supports (as a multiset; the lists themselves are sorted by a printing of the side).
 -/
 import Gotree.Lemmas.C05Cli
+import Gotree.Lemmas.C05RemoveAny
 import Gotree.Lemmas.C05OrientPath
 
 /- The property theorems live in `Gotree.C05.P` (the shared lemma file already uses the
@@ -91,6 +92,19 @@ theorem unroot_preserves (t : T) (hu : uniq t = true) (hl : lensOK t = true) (hs
     (unroot t).tipLens.Perm t.tipLens ∧
     ∀ a b, a ∈ t.tipNames → b ∈ t.tipNames → (unroot t).dist a b = t.dist a b :=
   (unroot_same t ((uniq_iff t).1 hu) ((lensOK_iff t).1 hl) ((supsOK_iff t).1 hs)).spec
+
+/-- a ROOTED witness of the hypotheses of `unroot_preserves` (`exT` is unrooted, `UnRoot` leaves it
+    alone): `((A:1,B:2)7/8:1/2,(D:1,E:1)1/2:3);` — the two root branches become one branch of length
+    7/2 carrying the larger support -/
+def exRooted : T :=
+  .node ⟨"", []⟩ 0 [
+    (mkE (1/2) (7/8) 0, .node ⟨"", []⟩ 0 [(mkE 1 NIL 1, T.leaf "A"), (mkE 2 NIL 2, T.leaf "B")]),
+    (mkE 3 (1/2) 3, .node ⟨"", []⟩ 0 [(mkE 1 NIL 4, T.leaf "D"), (mkE 1 NIL 5, T.leaf "E")])]
+
+example : uniq exRooted = true ∧ lensOK exRooted = true ∧ supsOK exRooted = true ∧ exRooted.rooted = true ∧
+    (unroot exRooted).rooted = false ∧
+    (unroot exRooted).edges.map (fun e => (e.len, e.sup)) = [(1, NIL), (2, NIL), (7/2, 7/8), (1, NIL), (1, NIL)] ∧
+    (unroot exRooted).dist "A" "D" = exRooted.dist "A" "D" := by decide +kernel
 
 /-- `RotateInternalNodes` preserves the tree, whatever the draws. -/
 theorem rotate_preserves (t : T) (draws : List Nat) (hl : lensOK t = true) :
@@ -274,6 +288,37 @@ theorem outgroup_removed_restriction (t t' : T) (strict : Bool) (S : List String
     (keysOK t' = true → removedOK t (outTips t S) t' = true) :=
   ⟨(outgroup_remove_full t t' strict S h ((uniq_iff t).1 hu) ((lensOK_iff t).1 hl) ((supsOK_iff t).1 hs) hside).2.2,
    fun hk => removedOK_of t t' strict S h ((uniq_iff t).1 hu) ((lensOK_iff t).1 hl) ((supsOK_iff t).1 hs) hside hk⟩
+
+/-- `outgroup_removed_any`: removal requested, ANY outgroup — in particular one that is not a side
+    of a split, in non-strict mode, where the code removes everything below the ancestor of the
+    outgroup.  Whenever `RerootOutGroup(remove = true)` succeeds: the outgroup is absent from the
+    result; the tips that disappeared are exactly one side of a split of the input (one root clade, it
+    contains the outgroup); the surviving tips keep all their pairwise distances; the non-trivial
+    splits of the result are the restrictions of those of the input; and the branches of
+    the result are exactly — same leaves below, same length, support and other data — the branches
+    of a tree `tn` that is the input up to rooting (`Same`: the input unrooted and re-rooted), minus
+    branches that have all or none of the surviving tips below them.  These are the clauses of the
+    oracle `removedAnyOK`; its last clause `survivorsDataOK` (the same data after fusing, on both
+    sides, the branches that carry the same restricted split) is not derived from this in Lean. -/
+theorem outgroup_removed_any (t t' : T) (strict : Bool) (S : List String)
+    (hu : uniq t = true) (hl : lensOK t = true) (hs : supsOK t = true)
+    (h : rerootOutGroup true strict S t = .ok t') :
+    t'.tipNames.Nodup ∧ t'.tipNames ≠ [] ∧
+    (∀ x ∈ t'.tipNames, x ∈ t.tipNames ∧ x ∉ outTips t S) ∧
+    canonSide t.tipNames (t.tipNames.filter (fun x => !t'.tipNames.contains x)) ∈ t.usplitsAll.map (·.side) ∧
+    (∀ a b, a ∈ t'.tipNames → b ∈ t'.tipNames → t'.dist a b = t.dist a b) ∧
+    (∀ K : List String, K.Perm t'.tipNames → ∀ a, a ∈ t'.usplits.map (·.side) ↔
+      a ∈ ((t.usplits.map (·.side)).map (fun σ => canonSide K (σ.filter K.contains))).filter
+        (fun a => decide (2 ≤ lightSize K a))) ∧
+    (∃ (tn : T) (rest : List SplitE), Same t tn ∧ tn.splits.Perm (rest ++ t'.splits) ∧
+      ∀ s ∈ rest, (∀ x ∈ t'.tipNames, x ∈ s.below) ∨ (∀ x ∈ t'.tipNames, x ∉ s.below)) :=
+  outgroup_remove_any t t' strict S h ((uniq_iff t).1 hu) ((lensOK_iff t).1 hl) ((supsOK_iff t).1 hs)
+
+/-- a non-side outgroup, removed in non-strict mode: `{D, C}` in `exT` takes `E` away with it -/
+example : (match rerootOutGroup true false ["D", "C"] exT with
+      | .ok u => u.tipNames == ["A", "B"]
+      | _ => false) = true ∧
+    (rerootOutGroup true true ["D", "C"] exT).cls = "err" := by decide +kernel
 
 /-- `outgroup_strict_refuses`: an outgroup that is not one side of a split of the tree (a
     "non-monophyletic" outgroup, in the unrooted sense) is refused in strict mode. -/
